@@ -34,7 +34,7 @@ class SubstanceGet(Harness):
         self.entry_name = 'Substance::get' + (' ; <&Substance as Mul<&Number>>::mul ; Substance::get' if scaled else '')
         self.describe = ('property lookup on an arbitrary amount of a substance with two properties (arbitrary non-zero input/output '
                          'Numbers, symbolic units)' + ('; then the same lookup on the substance multiplied by an arbitrary dimensionless k' if scaled else ''))
-        self.assumptions = ['property inputs and outputs are non-zero (the loader enforces it: expect("Non-zero property"))',
+        self.assumptions = ['property inputs are non-zero; outputs may be zero (the loader refuses a zero output, a formula with a zero count produces one)',
                             'property, input and output names are pairwise distinct within the substance (the statement\'s unambiguity premise)']
         self.bounds = ['2 properties per substance; units over %s' % (U,)]
         self.expect_classes = ['Result::Ok', 'Result::Err']
@@ -47,7 +47,7 @@ class SubstanceGet(Harness):
         for i in (1, 2):
             iv, ov = I.real('in%d' % i), I.real('out%d' % i)
             ex.assume(iv != 0)
-            ex.assume(ov != 0)
+            # outputs may be zero: the loader refuses that, but a formula such as `H0` yields a substance whose molar mass is 0
             DI, entI = sym_dim(ex, I, 'di%d' % i, U, lo=-3, hi=3)
             DO, entO = sym_dim(ex, I, 'do%d' % i, U, lo=-3, hi=3)
             props['p%d' % i] = prop_struct(ex, number(rational(iv), DI), 'in%d' % i, number(rational(ov), DO), 'out%d' % i)
@@ -117,6 +117,7 @@ class SubstanceGet(Harness):
                     obs.append((tag + 'unit[%s] = output' % u, n_eq(eff_exp(d, u), eff_exp(entO, u))))
             else:
                 obs.append((tag + 'input for an amount: amount must have the output dimensionality', z3.And(z3.Not(dimlessA), zbool(sameO))))
+                obs.append((tag + 'input for an amount of a zero output is refused, not answered', ov != 0))
                 obs.append((tag + 'value = input * (amount / output)', x * ov == iv * a))
                 for u in U:
                     obs.append((tag + 'unit[%s] = input' % u, n_eq(eff_exp(d, u), eff_exp(entI, u))))
@@ -133,7 +134,7 @@ class SubstanceGet(Harness):
                             z3.Or(dimlessA, z3.And(zbool(conf), z3.Not(zbool(sameI)))) if conf else z3.Or(dimlessA, False)))
             else:
                 obs.append((tag + 'wrong-dimension amount is refused with a conformance error',
-                            z3.Or(dimlessA, z3.And(zbool(conf), z3.Not(zbool(sameO)))) if conf else z3.Or(dimlessA, False)))
+                            z3.Or(dimlessA, z3.And(zbool(conf), z3.Not(zbool(sameO)))) if conf else z3.Or(dimlessA, ov == 0)))
         return obs
 
     def post(self, ex, ctx, outcome):
@@ -212,8 +213,8 @@ class SubstanceGet(Harness):
             want = (ov * amt / iv, dO) if dA and dA == dI else None
             kind = 'conformance' if dA and dA != dI else None
         else:
-            want = (iv * amt / ov, dI) if dA and dA == dO else None
-            kind = 'conformance' if dA and dA != dO else None
+            want = (iv * amt / ov, dI) if dA and dA == dO and ov != 0 else None
+            kind = 'conformance' if dA and dA != dO and ov != 0 else None
         if want is None:
             if o['ok']:
                 return True, '`%s` of %s %s stuff is answered (%s) but must be refused' % (q, amt, dA, o['number'])
